@@ -1,4 +1,6 @@
 import TaskctlVerif.Proofs.Sched
+import TaskctlVerif.Proofs.SchedFair
+import TaskctlVerif.Props.C01
 /-!
 # C02 — a failure cancels exactly its dependants; the outcome does not depend on timing
 
@@ -198,5 +200,196 @@ example : (List.range 4).map (run exCfg2 init exRun2).status = [.done, .error, .
 -- and a state in the middle of the run is not terminal (stage 3 still waiting)
 example : ¬ Terminal 4 (run exCfg2 init (exRun2.take 12)) := by
   intro h; exact (h 3 (by omega)).1 (by decide)
+
+/-! ## Nested pipelines, to any depth (`Model/Tree.lean`)
+
+A stage that includes a pipeline "succeeds" iff the included run recorded no error.  The outcomes of
+the whole tree are therefore a family `okfT` (one assignment per pipeline) that is *coherent*: for an
+including stage it says "succeeds" exactly when no stage of the included pipeline has the final status
+`error`.  The theorem: with such a family, under every interleaving of all schedulers of the tree,
+every settled stage of every pipeline has the status `final` prescribes - the result of a run with
+nested pipelines is a function of the graphs and the outcomes of the leaf tasks alone. -/
+
+/-- the final statuses of the pipeline at `q` contain an `error` -/
+def failsT (T : TCfg) (okfT : Path → Nat → Bool) (rank : Path → Nat → Nat) (q : Path) : Bool :=
+  (List.range (T.n q)).any fun t => final (T.cfg q) (okfT q) (rank q) t == .error
+
+/-- the outcome assignment is coherent with the tree -/
+def Coherent (T : TCfg) (okfT : Path → Nat → Bool) (rank : Path → Nat → Nat) : Prop :=
+  ∀ p s, T.pipe p s = true → okfT p s = !failsT T okfT rank (s :: p)
+
+/-- the actions of a tree run respect the outcomes of the leaf tasks, and nobody cancels -/
+def RespectsT (T : TCfg) (okfT : Path → Nat → Bool) (x : TAct) : Prop :=
+  x.a.isCancel = false ∧ ∀ s ok, x.a = .ret s ok → T.pipe x.p s = false → ok = okfT x.p s
+
+/-- which scheduler step a tree step is -/
+theorem tstep_which (T : TCfg) (σ : TSt) (x : TAct) :
+    tstep T σ x = σ ∨
+    (tstep T σ x = tset σ x.p (step (T.cfg x.p) (σ x.p) x.a) ∧
+      ∀ s ok, x.a = .ret s ok → T.pipe x.p s = false) ∨
+    (∃ s ok, x.a = .ret s ok ∧ T.pipe x.p s = true ∧
+      innerOver (T.n (s :: x.p)) (σ (s :: x.p)) = true ∧
+      tstep T σ x = tset σ x.p (step (T.cfg x.p) (σ x.p) (.ret s (!(σ (s :: x.p)).gerr)))) := by
+  unfold tstep
+  split
+  · split
+    · rename_i s ok hxa
+      split
+      · rename_i hp
+        split
+        · rename_i hov
+          exact .inr (.inr ⟨s, ok, hxa, hp, hov, rfl⟩)
+        · exact .inl rfl
+      · rename_i hp
+        refine .inr (.inl ⟨by rw [hxa], fun s' ok' h => ?_⟩)
+        rw [hxa] at h; cases h; simpa using hp
+    · rename_i hnot
+      refine .inr (.inl ⟨rfl, fun s' ok' h => ?_⟩)
+      exact absurd h (hnot s' ok')
+  · exact .inl rfl
+
+/-- an included run that is over, and was not cancelled, is terminal -/
+theorem innerOver_terminal (n : Nat) (τ : St) (h : innerOver n τ = true) (hc : τ.cancelled = false) :
+    Terminal n τ := by
+  unfold innerOver at h
+  simp only [hc, Bool.or_false, Bool.and_eq_true, List.all_eq_true, List.mem_range, bne_iff_ne,
+    ne_eq] at h
+  intro s hs
+  have h1 := isDone_settled n τ h.1 s hs
+  exact ⟨h1.1, h1.2, (h.2 s hs).2⟩
+
+/-- every pipeline of the tree is, at every moment, in a state that its own scheduler reaches by a
+run that respects the (coherent) outcomes and contains no cancellation -/
+theorem tree_projects (T : TCfg) (okfT rank) (hac : ∀ p, Acyclic (T.cfg p) (rank p))
+    (hne : ∀ p s, (T.cfg p).cond s ≠ .err) (hcoh : Coherent T okfT rank)
+    (hin : ∀ p t, final (T.cfg p) (okfT p) (rank p) t = .error → t < T.n p)
+    (xs : List TAct) (hxs : ∀ x ∈ xs, RespectsT T okfT x) (p : Path) :
+    ∃ as, trun T tinit xs p = run (T.cfg p) init as ∧ (∀ a ∈ as, Respects (okfT p) a) ∧
+      (∀ a ∈ as, a.isCancel = false) := by
+  let Good (σ : TSt) : Prop := ∀ p, ∃ as, σ p = run (T.cfg p) init as ∧
+    (∀ a ∈ as, Respects (okfT p) a) ∧ (∀ a ∈ as, a.isCancel = false)
+  suffices ∀ σ, Good σ → (∀ x ∈ xs, RespectsT T okfT x) → Good (trun T σ xs) from
+    this tinit (fun p => ⟨[], rfl, by simp, by simp⟩) hxs p
+  clear hxs p
+  induction xs with
+  | nil => intro σ h _; exact h
+  | cons x xs ih =>
+    intro σ h hx
+    refine ih (tstep T σ x) ?_ (fun y hy => hx y (List.mem_cons_of_mem _ hy))
+    have hxr := hx x List.mem_cons_self
+    -- extending the run of the pipeline at `x.p` by one action that respects the outcomes
+    have extend : ∀ a, Respects (okfT x.p) a → a.isCancel = false →
+        Good (tset σ x.p (step (T.cfg x.p) (σ x.p) a)) := by
+      intro a ha hca q
+      unfold tset
+      split
+      · rename_i hq; subst hq
+        obtain ⟨as, e, r, c⟩ := h x.p
+        refine ⟨as ++ [a], by rw [run_append, ← e]; rfl, ?_, ?_⟩
+        · intro b hb
+          rcases List.mem_append.mp hb with hb | hb
+          · exact r b hb
+          · simp only [List.mem_singleton] at hb; subst hb; exact ha
+        · intro b hb
+          rcases List.mem_append.mp hb with hb | hb
+          · exact c b hb
+          · simp only [List.mem_singleton] at hb; subst hb; exact hca
+      · exact h q
+    rcases tstep_which T σ x with he | ⟨he, hleaf⟩ | ⟨s, ok, hxa, hp, hov, he⟩ <;> rw [he]
+    · exact h
+    · refine extend x.a ?_ hxr.1
+      cases hxa : x.a with
+      | ret s ok => exact hxr.2 s ok hxa (hleaf s ok hxa)
+      | _ => trivial
+    · refine extend _ ?_ rfl
+      -- the included run is over: it is terminal, so its error flag is what `final` says
+      show (!(σ (s :: x.p)).gerr) = okfT x.p s
+      obtain ⟨as, e, r, c⟩ := h (s :: x.p)
+      have hcan : (σ (s :: x.p)).cancelled = false := by
+        rw [e, cancelled_run (T.cfg (s :: x.p)) (hne _) as init c]; rfl
+      have hterm := innerOver_terminal _ _ hov hcan
+      rw [e] at hterm
+      have hflag := C02_error_flag (T.cfg (s :: x.p)) (okfT (s :: x.p)) (rank (s :: x.p)) (hac _)
+        (hne _) as r _ hterm
+      rw [hcoh x.p s hp, e]
+      congr 1
+      rw [Bool.eq_iff_iff]
+      unfold failsT
+      simp only [List.any_eq_true, List.mem_range, beq_iff_eq]
+      constructor
+      · intro hg
+        obtain ⟨t, ht⟩ := hflag.1 hg
+        exact ⟨t, hin _ t ht, ht⟩
+      · rintro ⟨t, htn, ht⟩
+        exact hflag.2 ⟨t, htn, ht⟩
+
+/-- **C02 for nested pipelines, at every depth**: with coherent outcomes, under every interleaving
+of all the schedulers of the tree and all their goroutines, a settled stage of any pipeline of the
+tree has the status prescribed by `final` for that pipeline - so the statuses when everything is
+over, and the error reported by every included run, are functions of the graphs and of the outcomes
+of the leaf tasks alone. -/
+theorem C02_tree (T : TCfg) (okfT rank) (hac : ∀ p, Acyclic (T.cfg p) (rank p))
+    (hne : ∀ p s, (T.cfg p).cond s ≠ .err) (hcoh : Coherent T okfT rank)
+    (hin : ∀ p t, final (T.cfg p) (okfT p) (rank p) t = .error → t < T.n p)
+    (xs : List TAct) (hxs : ∀ x ∈ xs, RespectsT T okfT x) (p : Path) (s : Nat)
+    (hs : Settled (trun T tinit xs p) s) :
+    (trun T tinit xs p).status s = final (T.cfg p) (okfT p) (rank p) s := by
+  obtain ⟨as, e, r, _⟩ := tree_projects T okfT rank hac hne hcoh hin xs hxs p
+  rw [e] at hs ⊢
+  exact C02_settled (T.cfg p) (okfT p) _ (final_isFinal _ _ _ (hac p)) (hne p) as r s hs
+
+/-! ### Non-vacuity of the nested statement: three levels, a failure at the bottom travels up -/
+
+/-- stage 1 (depending on 0) of the top pipeline includes a pipeline of the same shape, whose stage 1
+includes a third one -/
+def exT : TCfg :=
+  { cfg := fun _ => exCfg, pipe := fun p s => s == 1 && (p == [] || p == [1]), n := fun _ => 2 }
+/-- the only leaf that fails is stage 0 of the innermost pipeline; the including stages fail with it -/
+def exOkT : Path → Nat → Bool := fun p s =>
+  !((p == [1, 1] && s == 0) || ((p == [] || p == [1]) && s == 1))
+def exRankT : Path → Nat → Nat := fun _ s => s
+def start0 (p : Path) : List TAct := [⟨p, .visit 0⟩, ⟨p, .decide⟩]
+def start1 (p : Path) : List TAct := [⟨p, .visit 1⟩, ⟨p, .read⟩, ⟨p, .decide⟩]
+def fin (p : Path) (s : Nat) (ok : Bool) : List TAct := [⟨p, .ret s ok⟩, ⟨p, .post s⟩]
+def exTRun : List TAct :=
+  start0 [] ++ fin [] 0 true ++ start1 [] ++ start0 [1] ++ fin [1] 0 true ++ start1 [1] ++
+  start0 [1, 1] ++ fin [1, 1] 0 false ++ start1 [1, 1] ++ fin [1] 1 true ++ fin [] 1 true
+
+example : Coherent exT exOkT exRankT := by
+  intro p s hp
+  simp only [exT, Bool.and_eq_true, beq_iff_eq, Bool.or_eq_true] at hp
+  obtain ⟨rfl, rfl | rfl⟩ := hp <;> decide
+example : ∀ p, Acyclic (exT.cfg p) (exRankT p) := by
+  intro p s d hd
+  simp only [exT, exCfg] at hd
+  split at hd <;> simp_all [exRankT]
+example : ∀ p t, final (exT.cfg p) (exOkT p) (exRankT p) t = .error → t < exT.n p := by
+  intro p t h
+  have hf : IsFinal (exT.cfg p) (exOkT p) (final (exT.cfg p) (exOkT p) (exRankT p)) :=
+    final_isFinal _ _ _ (by
+      intro s d hd
+      simp only [exT, exCfg] at hd
+      split at hd <;> simp_all [exRankT])
+  have := ((C02_error_iff _ _ _ hf t).mp h).2.2.1
+  simp only [exOkT, Bool.not_eq_false', Bool.or_eq_true, Bool.and_eq_true, beq_iff_eq] at this
+  show t < 2
+  omega
+example : ∀ x ∈ exTRun, RespectsT exT exOkT x := by
+  intro x hx
+  simp only [exTRun, start0, start1, fin, List.cons_append, List.nil_append, List.mem_cons,
+    List.not_mem_nil, or_false] at hx
+  rcases hx with h | h | h | h | h | h | h | h | h | h | h | h | h | h | h | h | h | h | h | h | h | h | h | h | h <;>
+    subst h <;> refine ⟨rfl, fun s ok h1 h2 => ?_⟩ <;> cases h1 <;> first | rfl | (simp [exT] at h2)
+-- the run is complete; the statuses are the ones `final` gives for the coherent outcomes (as
+-- `C02_tree` says they must be): the failure of the innermost stage 0 cancels its neighbour and fails
+-- both including stages
+set_option maxRecDepth 20000 in
+example : Settled (trun exT tinit exTRun [1, 1]) 1 ∧ Settled (trun exT tinit exTRun [1]) 1 ∧
+    Settled (trun exT tinit exTRun []) 1 ∧
+    (trun exT tinit exTRun [1, 1]).status 0 = .error ∧ (trun exT tinit exTRun [1, 1]).status 1 = .canceled ∧
+    (trun exT tinit exTRun [1]).status 1 = .error ∧ (trun exT tinit exTRun []).status 1 = .error ∧
+    final (exT.cfg []) (exOkT []) (exRankT []) 1 = .error ∧
+    final (exT.cfg [1, 1]) (exOkT [1, 1]) (exRankT [1, 1]) 1 = .canceled := by
+  unfold Settled; decide
 
 end Sched
